@@ -499,6 +499,23 @@ impl<'a> Value<'a> {
 
     /// Compares two values for sorting, treating NULL as less than any non-NULL value.
     pub fn compare_for_sort(&self, other: &Value) -> Ordering {
+        // `compare` returns None for NULL and NaN operands; mapping that to Equal made NULL (and NaN)
+        // "equal" to every value, which is not a consistent order for sort_by. NULLs sort first,
+        // NaN sorts after every other number.
+        match (self, other) {
+            (Value::Null, Value::Null) => return Ordering::Equal,
+            (Value::Null, _) => return Ordering::Less,
+            (_, Value::Null) => return Ordering::Greater,
+            _ => {}
+        }
+        let is_nan = |v: &Value| matches!(v, Value::Float(f) if f.is_nan());
+        let is_num = |v: &Value| matches!(v, Value::Int(_) | Value::Float(_));
+        match (is_nan(self), is_nan(other)) {
+            (true, true) => return Ordering::Equal,
+            (true, false) if is_num(other) => return Ordering::Greater,
+            (false, true) if is_num(self) => return Ordering::Less,
+            _ => {}
+        }
         self.compare(other).unwrap_or(Ordering::Equal)
     }
 
